@@ -1,3 +1,4 @@
+import Treepath.Proofs.DriveX
 import Treepath.Proofs.Drive
 import Treepath.Model.Has
 import Treepath.Proofs.MachineLemmas
@@ -39,6 +40,16 @@ returned, the predicate's own (stamped) events in place, results in place. -/
 theorem trace_is_stream (steps : Array (Step J)) (src : Src J) (hq : Quiet steps.toList) :
     ∃ k stD, hrun J.view steps src (1 + k) freshIter = (stD, stream steps.toList 0 src.rootNode) ∧ stD.act = .done :=
   full_run steps src hq
+
+/-- … and with predicates that raise: the trace is the stream through its first `raised`
+event (nothing is traced after the exception; the iterator is stuck in the action that raises) -/
+theorem trace_is_stream_any_predicate (steps : Array (Step J)) (src : Src J) (hp : PredsClean steps) :
+    (firstRaise (stream steps.toList 0 src.rootNode) = none ∧
+      ∃ k stD, hrun J.view steps src k freshIter = (stD, stream steps.toList 0 src.rootNode) ∧ stD.act = .done) ∨
+    (∃ e, firstRaise (stream steps.toList 0 src.rootNode) = some e ∧
+      ∃ k stU evs', hrun J.view steps src k freshIter = (stU, takeThroughRaise (stream steps.toList 0 src.rootNode)) ∧
+        action J.view steps src stU = (stU, evs', .raised e) ∧ firstRaise evs' = some e) :=
+  full_run_x steps src hp
 
 /-- in the stream every result is immediately preceded by the attempt that produced it: for
 a path with at least one step, `[…, attempt last vi (some m), result m, …]` -/
